@@ -15,7 +15,11 @@ def paramsOfJson (j : Json) : Except String Params := do
   let subpix ← field j "subpix" >>= natOfJson
   let dmin ← field j "dmin" >>= ratOfJson
   let dmax ← field j "dmax" >>= ratOfJson
-  return { method, isMax, subpix, dmin, dmax }
+  let flag := fun (k : String) => match (fieldD j "variant" (Json.mkObj [])).getObjVal? k with
+    | .ok (Json.bool b) => b
+    | _ => false
+  let variant : Variant := { fixFlat := flag "flat", fixOr := flag "or", fixEnds := flag "ends" }
+  return { variant, method, isMax, subpix, dmin, dmax }
 
 def zip3 {α β γ : Type} : List α → List β → List γ → List (α × β × γ)
   | a :: as, b :: bs, c :: cs => (a, b, c) :: zip3 as bs cs
